@@ -259,6 +259,8 @@ def translate_all(repo):
             out.append((name, MethodTranslator(ms[name]).translate()))
         except Unsupported as u:
             out.append((name, ".unsupported %s" % lstr(str(u))))
+        except Exception as exc:        # noqa: BLE001
+            out.append((name, ".unsupported %s" % lstr("translator: %s" % type(exc).__name__)))
     return out
 
 
